@@ -173,6 +173,14 @@ func (e *env) fail(m common.Mismatch) {
 // prepare fills the derived attributes of a root; false when the root is unusable (script illegal,
 // or the Lean `valid` predicate rejects the position — the properties quantify over valid roots).
 func (e *env) prepare(rt *root) bool {
+	if len(rt.moves) > 0 {
+		// the start position of the played history must itself be valid (the stream's constructive
+		// sampler also emits positions the Lean `valid` rejects, e.g. a castling right without its rook)
+		a0 := e.bm.Batch([]string{"fen " + rt.fen, "valid"})
+		if !strings.HasPrefix(a0[0], "ok") || len(a0[1]) != 2 || a0[1][0] != '1' {
+			return false
+		}
+	}
 	b := rt.build()
 	if b == nil || b.InvalidPieceCount() {
 		return false
@@ -224,6 +232,9 @@ func (e *env) collectRoots(n int) {
 			continue
 		}
 		rt := &root{name: src, fen: fen}
+		if !e.prepare(rt) {
+			continue
+		}
 		// a third of the stream roots are extended by a short random play-out (history, clocks)
 		if e.c.Rng.IntN(3) == 0 {
 			if b, err := board.FromFEN(fen); err == nil {
@@ -600,7 +611,7 @@ func parallel(n int, f func(i int)) {
 }
 
 func (e *env) c06() {
-	K := e.c.Pick(300, 5000)
+	K := e.c.Pick(300, 4000)
 	nSweep := e.c.Pick(40, 120)
 	e.collectRoots(e.c.Pick(40, 120))
 	e.rootHistogram()
@@ -1217,6 +1228,100 @@ func (e *env) c07() {
 		sp := specSamples[len(specSamples)/2]
 		e.r.Sample(map[string]any{"root": sp.rt.key, "pv": movesUCI(sp.ms)}, 3)
 	}
+	e.pvModel()
+}
+
+// ---------------------------------------------------------------------------------------------
+// C07: the PV buffer model (Model/Pv.lean through drv_search) against a verbatim copy of search/pv.go
+// (the type is unexported and has no hook; the copy is kept textually identical to pv.go).
+
+type pvCopy struct {
+	moves [MaxPlies * (MaxPlies + 1) / 2]move.Move
+	depth [MaxPlies]Depth
+}
+
+func (pv *pvCopy) insert(ply Depth, m move.Move) {
+	i := bufIxCopy(ply)
+	j := bufIxCopy(ply + 1)
+	l := pv.depth[ply+1]
+
+	pv.moves[i] = m
+	copy(pv.moves[i+1:i+1+int(l)], pv.moves[j:j+int(l)])
+	pv.depth[ply] = l + 1
+}
+
+func (pv *pvCopy) setNull(ply Depth) { pv.depth[ply] = 0 }
+
+func bufIxCopy(ply Depth) int {
+	return int(ply)*MaxPlies - int(ply)*int(ply-1)/2
+}
+
+func (pv *pvCopy) active() []move.Move { return pv.moves[0:pv.depth[0]] }
+
+func (e *env) pvModel() {
+	if e.c.Driver == "" {
+		return
+	}
+	if _, err := os.Stat(e.c.Driver); err != nil {
+		e.r.Notes = append(e.r.Notes, "drv_search missing: PV buffer model not compared")
+		return
+	}
+	m := common.StartModel(e.c.Driver)
+	defer m.Close()
+	var reqs []string
+	for p := -128; p <= 127; p++ {
+		reqs = append(reqs, fmt.Sprintf("bufix %d", p))
+	}
+	ans := m.Batch(reqs)
+	for i, p := 0, -128; p <= 127; i, p = i+1, p+1 {
+		want := strconv.Itoa(bufIxCopy(Depth(p)))
+		e.r.Evaluations++
+		e.r.Count("pvmodel:bufix", 1)
+		if ans[i] != want {
+			e.r.Fail(common.Mismatch{Property: "C07", Kind: "broken-correspondence", Ops: []string{reqs[i]}, Impl: want, Model: ans[i],
+				Note: "bufIx: Go expression and Lean model disagree"})
+		}
+	}
+	// random scripts in the order alphaBeta uses the buffer: setNull(ply) on entry, insert(ply, m) after a child at ply+1
+	n := e.c.Pick(300, 5000)
+	for k := 0; k < n; k++ {
+		var pv pvCopy
+		var ops []string
+		depth := 1 + e.c.Rng.IntN(63)
+		var walk func(ply int)
+		walk = func(ply int) {
+			pv.setNull(Depth(ply))
+			ops = append(ops, fmt.Sprintf("n%d", ply))
+			if ply >= depth || ply >= MaxPlies-1 {
+				return
+			}
+			for c := 0; c < 1+e.c.Rng.IntN(2); c++ {
+				if len(ops) > 400 {
+					return
+				}
+				walk(ply + 1)
+				if e.c.Rng.IntN(3) != 0 {
+					mv := move.Move(1 + e.c.Rng.IntN(32767))
+					pv.insert(Depth(ply), mv)
+					ops = append(ops, fmt.Sprintf("i%d:%d", ply, mv))
+				}
+			}
+		}
+		walk(0)
+		req := "pv " + strings.Join(ops, " ")
+		a := m.Ask(req)
+		act := implutil.MovesStr(pv.active())
+		want := act + " | " + act + " | 1"
+		e.r.Evaluations++
+		e.r.Count("pvmodel:scripts", 1)
+		if len(pv.active()) >= 2 {
+			e.r.Nontrivial("pvscript|" + hashStr(req))
+		}
+		if a != want {
+			e.r.Fail(common.Mismatch{Property: "C07", Kind: "broken-correspondence", Ops: []string{req}, Impl: want, Model: a,
+				Note: "PV buffer: copy of pv.go vs Lean flat buffer / list-of-rows model"})
+		}
+	}
 }
 
 // ---------------------------------------------------------------------------------------------
@@ -1625,6 +1730,5 @@ func main() {
 	default:
 		panic("unknown suite " + *suite)
 	}
-	_ = hashStr
 	e.r.Write(c)
 }
